@@ -38,13 +38,16 @@ def gen_abf(r, cid, big=False):
     n = r.choice([2, 2, 3, 3, 4, 5, 6] if big else [2, 2, 3, 3, 4])
     nd = r.choice([1, 1, 2, 2, 3])
     nbins = [r.randint(2, 4 if nd < 3 else 3) for _ in range(nd)]
-    F = r.choice([1, 2, 2, 3, 4])
-    rounds = r.randint(1, 3)
+    F = r.choice([1, 2, 2, 3, 4, 5, 6, 7])
+    rounds = r.randint(1, 3) if F < 5 else r.randint(1, 2)
+    # the absolute step number the job starts at: beyond what an int, an unsigned int, a double hold exactly
+    S0 = r.choice([0, 0, 0, 0, 2 ** 31 - 2, 2 ** 31 + 5, 2 ** 32 - 3, 2 ** 32 + 1, 2 ** 53 - 4, 2 ** 53 + 7, 2 ** 62 - 40])
     t_end = F * rounds + r.randint(0, F - 1)
     p_restart = r.choice([0.0, 0.0, 0.1, 0.25])
     # mode "script": no "shared on" in the configuration, all walkers call "cv bias a share" after the steps in xsteps
     # mode "oldfmt": restarts go through a state of the older format (no last_* section), right after an exchange
     mode = r.choice(["freq"] * 5 + ["script"] * 2 + ["oldfmt"])
+    fscale = r.choice([1.0, 1.0, 1.0, 2.0 ** -26, 2.0 ** 26])      # forces of the order 1e-8 .. 1e8 (powers of two: sums stay exact)
     xsteps = set()
     if mode == "script":
         xsteps = set(t for t in range(1, t_end + 1) if r.random() < 0.4) or {max(1, t_end)}
@@ -58,24 +61,27 @@ def gen_abf(r, cid, big=False):
         s = []
         for t in range(t_end + 1):
             if r.random() < 0.08:
-                bins = [r.choice([-1, nb]) if r.random() < 0.5 else r.randint(0, nb - 1) for nb in nbins]
+                # just outside (by less than a bin; with frac 0.0 and bin nb: exactly on the upper boundary) and far outside
+                bins = [r.choice([-1, nb, nb, -1000, nb + 10 ** 6]) if r.random() < 0.5 else r.randint(0, nb - 1) for nb in nbins]
             else:
                 bins = [r.randint(0, nb - 1) for nb in nbins]
             frac = r.choice([0.5, 0.5, 0.0, 0.25, 0.984375])
-            forces = [V.dyadic(r, -8, 8) for _ in range(nd)]
+            forces = [V.dyadic(r, -8, 8) * fscale for _ in range(nd)]
             s.append(["s", w, bins, forces, frac])
             if t in xsteps:
                 s.append(["x", w])
+            if r.random() < 0.04:
+                s.append(["c", w])
             if output and r.random() < 0.15:
                 s.append(["o", w])
-            if r.random() < p_restart and t < t_end and (mode != "oldfmt" or (t > 0 and t % F == 0)):
-                s.append(["R" if mode == "oldfmt" else "r", w, r.choice(["text", "binary"])])
-                s.append(["s", w, bins, [V.dyadic(r, -8, 8) for _ in range(nd)], frac])   # the repeated step
+            if r.random() < p_restart and t < t_end and (mode != "oldfmt" or (t > 0 and (S0 + t) % F == 0)):
+                s.append(["R", w, r.choice(["text", "binary"])] if mode == "oldfmt" else ["r", w, r.choice(["text", "binary", "str", "buf"])])
+                s.append(["s", w, bins, [V.dyadic(r, -8, 8) * fscale for _ in range(nd)], frac])   # the repeated step
         seqs.append(s)
     # interleave: a walker that issued an exchange step is blocked until all walkers issued theirs
     pos = [0] * n
     t = [None] * n
-    last = [0] * n
+    last = [S0] * n
     first = [True] * n
     pending = set()
     events = []
@@ -94,7 +100,7 @@ def gen_abf(r, cid, big=False):
         pos[w] += 1
         events.append(ev)
         if ev[0] == "s":
-            nt = (t[w] if t[w] is not None else 0) if first[w] else t[w] + 1
+            nt = (t[w] if t[w] is not None else S0) if first[w] else t[w] + 1
             first[w] = False
             t[w] = nt
             if F > 0 and nt > last[w] and nt % F == 0:
@@ -115,7 +121,7 @@ def gen_abf(r, cid, big=False):
         if r.random() < 0.5:
             # at the very end one walker is given an unformatted state cut inside the "last_samples" keyword
             events.append(["R", r.randrange(n), "binary", True])
-    return {"kind": "abf", "id": cid, "mode": mode, "script": mode == "script", "oldfmt": mode == "oldfmt", "output": output, "hist": output and r.random() < 0.4, "integrate": integrate, "smp": smp, "n": n, "nd": nd, "nbins": nbins, "freq": F, "apply": r.random() < 0.7,
+    return {"kind": "abf", "id": cid, "mode": mode, "step0": S0, "script": mode == "script", "oldfmt": mode == "oldfmt", "output": output, "hist": output and r.random() < 0.4, "integrate": integrate, "smp": smp, "n": n, "nd": nd, "nbins": nbins, "freq": F, "apply": r.random() < 0.7,
             "full": r.choice([1, 2, 200]), "events": events}
 
 
@@ -133,17 +139,19 @@ def abf_expect(case):
     and the model's case line.  Returns (expected, model_line, qmap): expected[k] = dict for event k (None for
     events without a dump), qmap[k] = index of the model's Q answer for event k."""
     n, nd, F = case["n"], case["nd"], case["freq"]
+    S0 = case.get("step0", 0)
     nc = 1
     for b in case["nbins"]:
         nc *= b
     own = [[] for _ in range(n)]           # samples (addr, forces) fed to walker w, in order
     nshared = [0] * n                      # how many of them were exchanged
     t = [None] * n
-    last = [0] * n
+    last = [S0] * n
     first = [True] * n
     pending = []                           # (event index, walker, sample or None)
     restarted = False
-    tokens = []
+    # the job starts at step S0: colvarbias_abf::init sets shared_last_step to it (in the model: a restart at S0 of the empty walker)
+    tokens = ["r,%d,%d" % (w, S0) for w in range(n)] if S0 else []
     exp = [None] * len(case["events"])
     qmap = {}
     nq = 0
@@ -176,7 +184,7 @@ def abf_expect(case):
     for k, ev in enumerate(case["events"]):
         w = ev[1]
         if ev[0] == "s":
-            nt = (t[w] if t[w] is not None else 0) if first[w] else t[w] + 1
+            nt = (t[w] if t[w] is not None else S0) if first[w] else t[w] + 1
             rel0 = first[w]
             first[w] = False
             t[w] = nt
@@ -211,14 +219,14 @@ def abf_expect(case):
                 qmap[k] = nq
                 nq += 1
                 exp[k] = dict(grids(w, nshared), last_step=last[w], restarted=restarted)
-        elif ev[0] == "o":
+        elif ev[0] in ("o", "c"):
             tokens.append("q,%d" % w)
             qmap[k] = nq
             nq += 1
             exp[k] = dict(grids(w, nshared), last_step=last[w], restarted=restarted)
         elif ev[0] == "x":
             # exchange asked for by the script, at the step every walker is at
-            nt = t[w] if t[w] is not None else 0
+            nt = t[w] if t[w] is not None else S0
             last[w] = nt
             tokens.append("a,%d" % w)
             pending.append((k, w, None))
@@ -237,7 +245,7 @@ def abf_expect(case):
         else:
             restarted = True
             first[w] = True
-            last[w] = t[w] if t[w] is not None else 0
+            last[w] = t[w] if t[w] is not None else S0
             tokens.append("r,%d,%d" % (w, last[w]))
             tokens.append("q,%d" % w)
             qmap[k] = nq
@@ -323,6 +331,10 @@ def check_abf(run, exe, model, cases, scratch):
                           {"kind": "abf", "case": c})
         tie_ok = True
         for k, ev in enumerate(c["events"]):
+            if out[k] is not None and ev[0] == "c" and any("err=ok" in x and "nbias=2" in x for x in out[k][1]):
+                run.violation("config:accepted-outside-the-premises", "a second ABF bias on a variable that does not exist was accepted: %s" % out[k][1],
+                              {"kind": "abf", "case": c, "event": k})
+                break
             if out[k] is not None and ev[0] in ("r", "R"):
                 loads = [x for x in out[k][1] if x.startswith("LOAD")]
                 cut = ev[0] == "R" and len(ev) > 3 and ev[3]
@@ -430,14 +442,15 @@ def no_zero_length_runs(events, kinds):
 
 def gen_meta(r, cid, big=False):
     n = r.choice([2, 2, 3, 3, 4, 5, 6] if big else [2, 2, 3, 3, 4])
-    hillfreq = r.choice([1, 1, 2])
-    upfreq = r.choice([1, 2, 2, 3])
+    hillfreq = r.choice([1, 1, 2, 3])
+    upfreq = r.choice([1, 2, 2, 3, 5])
     lock = r.random() < 0.5
     if lock:
-        rf = r.choice([0, 2, 3, 4, 5])
+        rf = r.choice([0, 2, 3, 4, 5, 6, 7])
         restartfreq = [rf] * n
     else:
-        restartfreq = [r.choice([0, 0, 2, 3, 4, 5]) for _ in range(n)]
+        restartfreq = [r.choice([0, 0, 2, 3, 4, 5, 6, 7]) for _ in range(n)]
+    S0 = r.choice([0, 0, 0, 2 ** 31 - 2, 2 ** 31 + 5, 2 ** 32 - 3, 2 ** 32 + 1, 2 ** 53 - 4, 2 ** 53 + 7, 2 ** 62 - 60])
     # margin 0: the first walker starts in bin 0 and the last one ends in the last bin: hills next to the boundaries, which
     # the walkers (and their mirrors of the others) also keep in the list of hills treated off the grid
     margin = r.choice([2, 2, 0])
@@ -486,7 +499,9 @@ def gen_meta(r, cid, big=False):
     return {"kind": "meta", "id": cid, "n": n, "nbins": NB, "hillfreq": hillfreq, "upfreq": upfreq,
             "restartfreq": restartfreq, "lockstep": lock, "grids": r.random() < 0.7, "szd": szd,
             # no replicaID keyword: the name comes from the replica interface of the engine (its replica index)
-            "idfromcomm": r.random() < 0.25, "events": events}
+            "idfromcomm": r.random() < 0.25, "step0": S0,
+            # a restarted walker continues with a configuration that legally differs from the one that wrote its state
+            "conf2": ({"hillfreq": r.choice([1, 2, 3]), "upfreq": r.choice([1, 2, 3, 5])} if r.random() < 0.5 else None), "events": events}
 
 
 def meta_primitives(case):
@@ -495,9 +510,13 @@ def meta_primitives(case):
     Returns per event a list of primitives ("setup", w, S, nn) ("dep", w, it, bin) ("flush", w) ("share", w)
     ("wstate", w, S) ("rrestart", w), and per walker the deposited sequence after each event."""
     n = case["n"]
+    S0 = case.get("step0", 0)
     t = [None] * n
     first = [True] * n
     started = [False] * n
+    second = [False] * n        # the walker runs its second (or a later) job: with conf2 its frequencies are different ones
+    def freq(w, key):
+        return case["conf2"][key] if (second[w] and case.get("conf2")) else case[key]
     D = [[] for _ in range(n)]
     prims = []
     Dafter = []
@@ -507,17 +526,17 @@ def meta_primitives(case):
         w = ev[1]
         p = []
         if not started[w]:
-            p.append(("setup", w, 0, False))
+            p.append(("setup", w, S0, False))
             started[w] = True
         if ev[0] == "s":
-            nt = (t[w] if t[w] is not None else 0) if first[w] else t[w] + 1
+            nt = (t[w] if t[w] is not None else S0) if first[w] else t[w] + 1
             rel0 = first[w]
             first[w] = False
             t[w] = nt
-            if ((not rel0) or case.get("szd")) and nt % case["hillfreq"] == 0:
+            if ((not rel0) or case.get("szd")) and nt % freq(w, "hillfreq") == 0:
                 p.append(("dep", w, nt, ev[2]))
                 D[w].append((nt, ev[2]))
-            if nt % case["upfreq"] == 0:
+            if nt % freq(w, "upfreq") == 0:
                 p.append(("flush", w))
                 p.append(("share", w))
             rf = case["restartfreq"][w]
@@ -530,6 +549,7 @@ def meta_primitives(case):
             p.append(("setup", w, t[w], bool(ev[2])))
             state_n[w] = len(D[w])
             first[w] = True
+            second[w] = True
         prims.append(p)
         Dafter.append([list(x) for x in D])
         case["_state_n_after"].append(list(state_n))
@@ -1040,8 +1060,8 @@ def gen_czar(r, cid, big=False):
     restart_at = {}
     if r.random() < 0.5:
         for _ in range(r.randint(1, 2)):
-            restart_at[str(r.randint(1, T - 2))] = [r.choice(["text", "binary"]) for _ in range(n)]
-    return {"kind": "czar", "id": cid, "n": n, "nbins": nb, "freq": freq, "script": script, "hist": r.random() < 0.3, "twice": r.random() < 0.4, "restart_at": restart_at, "steps": steps, "gather_at": gather_at}
+            restart_at[str(r.randint(1, T - 2))] = [r.choice(["text", "binary", "str", "buf"]) for _ in range(n)]
+    return {"kind": "czar", "id": cid, "n": n, "nbins": nb, "freq": freq, "script": script, "freq2": (r.choice([2, 3, 5]) if restart_at and not script and r.random() < 0.5 else None), "hist": r.random() < 0.3, "twice": r.random() < 0.4, "restart_at": restart_at, "steps": steps, "gather_at": gather_at}
 
 
 def check_czar(run, exe, model, cases, scratch):
@@ -1108,6 +1128,9 @@ def check_czar(run, exe, model, cases, scratch):
         def gfmt(d):
             return ";".join([",".join(str(x) for x in d[k_]) for k_ in ("cnt", "lcnt", "ocnt", "zcnt")] +
                             [",".join(V.hexf(x) for x in d[k_]) for k_ in ("sum", "lsum", "osum", "zsum")])
+        if any(d is None or d.get(k_) is None for (t, dumps, pr, before) in res for d in before for k_ in ("cnt", "lcnt", "ocnt", "zcnt")):
+            run.dist("czar:gather-before-sharing-was-enabled")      # (script mode: nothing to gather yet; not generated on purpose)
+            continue
         for (t, dumps, pr, before) in res:
             glines.append("GATHER %d %d %d %s" % (c["n"], len(before[0]["cnt"]), len(before[0]["sum"]), " ".join(gfmt(d) for d in before)))
         rc, gout, err = V.run_lines(model, glines, timeout=300)
@@ -1150,7 +1173,7 @@ def check_czar(run, exe, model, cases, scratch):
             ls = [sum(d["osum"][i] for d in dumps) for i in range(len(g["osum"]))]
             badw = [w_ for w_, d in enumerate(dumps) if d["lcnt"] != lc or any(not close(a, b, False) for a, b in zip(d["lsum"], ls))
                     or any(x < y for x, y in zip(d["cnt"], d["lcnt"]))]
-            if badw and c["freq"] < 100:
+            if badw and (c["freq"] < 100 or c.get("freq2")):
                 run.violation("czar:snapshot-not-the-sum-of-locals", "eABF walkers, gather at step %d: snapshot counts of walker %d are %s, the local counts of "
                               "all walkers are %s (sum %s)" % (t, badw[0], dumps[badw[0]]["lcnt"], [d["ocnt"] for d in dumps], lc), {"kind": "czar", "case": c, "step": t})
                 break
@@ -1169,8 +1192,9 @@ def check_czar(run, exe, model, cases, scratch):
 
 def gen_opes(r, cid, big=False):
     n = r.choice([2, 3, 4, 5, 6] if big else [2, 3, 4])
-    pace = r.choice([1, 2, 3])
-    T = r.randint(3, 9)
+    pace = r.choice([1, 2, 3, 5])
+    T = r.randint(3, 9) + (4 if pace == 5 else 0)
+    S0 = r.choice([0, 0, 2 ** 31 - 1, 2 ** 32 + 3, 2 ** 53 - 2, 2 ** 62 - 30])
     steps = [[V.dyadic(r, -8, 8, bits=4) for _ in range(n)] for _ in range(T)]
     variant = r.choice(["plain", "plain", "compress", "nlist", "adaptive", "long", "explore"])
     if variant == "long":
@@ -1180,7 +1204,7 @@ def gen_opes(r, cid, big=False):
     elif variant != "plain":
         # close positions, so that kernels are merged / neighbour lists differ / the adaptive width matters
         steps = [[V.dyadic(r, -1, 1, bits=4) for _ in range(n)] for _ in range(T + 4)]
-    return {"kind": "opes", "id": cid, "n": n, "pace": pace, "variant": variant, "nlreset": r.random() < 0.5, "smp": r.random() < 0.4, "steps": steps}
+    return {"kind": "opes", "id": cid, "n": n, "pace": pace, "variant": variant, "step0": S0, "nlreset": r.random() < 0.5, "smp": r.random() < 0.4, "steps": steps}
 
 
 def check_opes(run, exe, model, cases, scratch):
@@ -1200,7 +1224,7 @@ def check_opes(run, exe, model, cases, scratch):
             continue
         rounds = []
         for t, row in enumerate(c["steps"]):
-            if t > 0 and t % c["pace"] == 0:
+            if t > 0 and (c.get("step0", 0) + t) % c["pace"] == 0:
                 rounds.append([V.hexf(x) for x in row])
             dumps = res[t]
             if any(d is None for d in dumps):
@@ -1232,7 +1256,7 @@ def check_opes(run, exe, model, cases, scratch):
             if t == 0:
                 base = dumps[0]
                 hrounds = []
-            if t > 0 and t % c["pace"] == 0:
+            if t > 0 and (c.get("step0", 0) + t) % c["pace"] == 0:
                 nk = len(dumps[0]["kernels"])
                 hrounds.append([k[0] for k in dumps[0]["kernels"][nk - c["n"]:]])
                 # oracle on the implementation alone: the sum of weights is the initial value plus the weight of every
@@ -1301,6 +1325,240 @@ def check_different_grids(run, exe, scratch):
             run.violation("abf:different-grids-combined", "two shared-ABF walkers with %d and %d bins exchanged at step 2 without an error (%s) or replica 0 "
                           "combined data of a different grid (its counts %s; it sampled twice)" % (nb0, nb1, errs, d0["cnt"]),
                           {"kind": "different-grids", "nbins": [nb0, nb1]})
+
+
+# ==========================================================================================
+# data read through inputPrefix is what every walker starts from: it is in the union once
+# ==========================================================================================
+
+def check_input_prefix(run, exe, scratch):
+    import shutil as _sh
+    for mode, n in (("shared", 2), ("script", 2), ("script", 3)):
+        run.count("input-prefix:%s:%d" % (mode, n), True)
+        run.dist("abf:input-prefix")
+        dirs = []
+        for i in range(n):
+            d = os.path.join(scratch, "ip%d" % i)
+            _sh.rmtree(d, ignore_errors=True)
+            os.makedirs(d)
+            dirs.append(d)
+        case = {"nd": 1, "nbins": [3], "freq": 2, "n": n, "output": True}
+        try:
+            with W.Team(exe, n, dirs, timeout_ms=3000) as T:
+                T.all_do(lambda i: scen.abf_setup(case), 20)
+                for t in range(5):
+                    T.all_do(lambda i: scen.step_lines(case, [i % 2], [1.0]), 20)
+                d0 = scen.parse_shared(T.all_do(["postrun", "dumpshared a"], 20)[0])
+            inp = list(d0["cnt"])           # what out.all.count holds: the global counts of replica 0 at the end of the first job
+            case2 = dict(case, script=(mode == "script"), freq=(0 if mode == "script" else 2), output=False)
+
+            def setup2(i):
+                L = scen.abf_setup(case2)
+                k = L.index("  name a")
+                L.insert(k + 1, "  inputPrefix %s/out.all" % dirs[0])
+                return L
+            with W.Team(exe, n, dirs, timeout_ms=3000) as T:
+                T.all_do(setup2, 20)
+                for t in range(3):
+                    res = T.all_do(lambda i: scen.step_lines(case2, [2], [1.0]), 20)
+                if mode == "script":
+                    res = T.all_do(["script cv bias a share", "dumpshared a"], 20)
+                dumps = [scen.parse_shared(r) for r in res]
+        except W.WalkerTimeout as e:
+            run.violation("abf:input-prefix-hang", "walkers with inputPrefix stopped answering (%s)" % str(e)[:120], {"kind": "input-prefix", "mode": mode})
+            continue
+        # steps 1 and 2 of the second job are sampled (bin 2) before the exchange of step 2 (shared on: the sample of step 2 comes
+        # after the exchange and is in the global grid only)
+        new = 2 * n if mode == "script" else n
+        exp = [inp[0], inp[1], inp[2] + new]
+        got = [d["lcnt"] for d in dumps]
+        if any(g != exp for g in got):
+            run.violation("abf:input-data-not-once", "%d walkers read the same counts %s through inputPrefix (sharing enabled by %s) and sampled bin 2: after the "
+                          "first exchange the combined counts are %s, the input once plus every new sample once is %s" %
+                          (n, inp, "the configuration" if mode == "shared" else "a script", got, exp), {"kind": "input-prefix", "mode": mode, "n": n})
+
+
+# ==========================================================================================
+# two shared ABF biases on one variable (their rounds share the channels), then one is deleted
+# ==========================================================================================
+
+def check_two_biases(run, exe, scratch):
+    import shutil as _sh
+    nb = 3
+    for n, named in ((3, True), (2, False)):
+        run.count("two-biases:%d:%s" % (n, named), True)
+        run.dist("abf:two-biases")
+        dirs = []
+        for i in range(n):
+            d = os.path.join(scratch, "tb%d" % i)
+            _sh.rmtree(d, ignore_errors=True)
+            os.makedirs(d)
+            dirs.append(d)
+        # without names the biases are called abf1 and abf2
+        na, nbn = ("a", "b") if named else ("abf1", "abf2")
+        conf = scen.abf_conf({"nd": 1, "nbins": [nb], "freq": 2})
+        k = conf.index("abf {")
+        first = [x for x in conf[k:] if named or not x.strip().startswith("name ")]
+        second = [("  name b" if x.strip() == "name a" else "  sharedFreq 3" if x.strip().startswith("sharedFreq") else x) for x in conf[k:]]
+        second = [x for x in second if named or not x.strip().startswith("name ")]
+        setup = ["natoms 1", "samestep 1", "includecv 1", "new", "config EOF"] + conf[:k] + first + second + ["EOF", "show cv 0 energy 0 bias 0 atomf 0"]
+
+        def union(t_last):
+            c = [0] * nb
+            for w in range(n):
+                for t in range(1, t_last + 1):
+                    c[(w + t) % nb] += 1
+            return c
+        try:
+            with W.Team(exe, n, dirs, timeout_ms=3000) as T:
+                r0 = T.all_do(setup, 20)
+                if not all(any("CONFIG err=ok" in x and "nbias=2" in x for x in r) for r in r0):
+                    raise W.WalkerTimeout("configuration failed: %s" % r0[0])
+                seen = {}
+                for t in range(13):
+                    T.all_do(lambda i: ["pos 1 0 0 %s" % float((i + t) % nb + 0.5).hex(), "eforce 1 0 0 0x1p+0", "step"], 20)
+                    if t == 6:
+                        seen["b6"] = [scen.parse_shared(r) for r in T.all_do(["dumpshared %s" % nbn], 20)]
+                        seen["a6"] = [scen.parse_shared(r) for r in T.all_do(["dumpshared %s" % na], 20)]
+                    if t == 7:
+                        seen["del"] = T.all_do(["script cv bias %s delete" % nbn], 20)
+                seen["a12"] = [scen.parse_shared(r) for r in T.all_do(["dumpshared %s" % na], 20)]
+                stats = T.all_do(["repstat"], 20)
+        except W.WalkerTimeout as e:
+            run.violation("abf:two-biases-hang", "two shared ABF biases on one variable (%d walkers): a walker stopped answering (%s)" % (n, str(e)[:160]),
+                          {"kind": "two-biases", "n": n, "named": named})
+            continue
+        bad = []
+        for key, t_last in (("b6", 5), ("a6", 5), ("a12", 11)):
+            for w, d in enumerate(seen[key]):
+                if d is None or d["lcnt"] != union(t_last):
+                    bad.append((key, w, d and d["lcnt"], union(t_last)))
+        if bad or not all(any("errors=0" in x for x in s_) for s_ in stats):
+            run.violation("abf:two-biases-mixed-up", "two shared ABF biases (%s every 2 steps, %s every 3, the second deleted after step 7) on %d walkers: snapshot counts "
+                          "(bias at step, walker, found, union of what was fed) %s; %s" % (na, nbn, n, bad[:3], [x for s_ in stats for x in s_][:2]),
+                          {"kind": "two-biases", "n": n, "named": named})
+
+
+# ==========================================================================================
+# an exchange round that a dying walker interrupts, at every point of the round
+# ==========================================================================================
+
+def gen_death(r, cid, big=False):
+    n = r.choice([2, 3, 3, 4] + ([5, 6] if big else []))
+    nb = r.randint(2, 4)
+    F = r.choice([1, 2, 3])
+    T = F * r.randint(1, 3)
+    victim = r.randrange(n)
+    # replica calls of a walker in one round: replica 0 receives n-1 times, sends n-1 times, barrier; the others send, receive, barrier
+    ncalls = 2 * (n - 1) + 1 if victim == 0 else 3
+    steps = [[(r.randint(0, nb - 1), V.dyadic(r, -8, 8)) for _ in range(n)] for _ in range(T + 1)]
+    return {"kind": "death", "id": cid, "n": n, "nd": 1, "nbins": [nb], "freq": F, "T": T, "victim": victim,
+            "die_after": r.randrange(ncalls), "integrate": r.random() < 0.5, "steps": steps}
+
+
+def check_death(run, exe, model, cases, scratch):
+    for c in cases:
+        n, F, T, nb = c["n"], c["freq"], c["T"], c["nbins"][0]
+        run.dist("death:n=%d" % n)
+        run.dist("death:victim=%s" % ("replica0" if c["victim"] == 0 else "other"))
+        run.count(json.dumps([c["steps"], F, c["victim"], c["die_after"]]), True)
+        run.sample({"kind": "death", "n": n, "freq": F, "T": T, "victim": c["victim"], "die_after": c["die_after"]}, cap=6)
+        try:
+            before, after = run_twice(scen.run_death, exe, c, scratch, timeout=15.0)
+        except W.WalkerTimeout as e:
+            run.violation("death:survivor-hangs-or-dies", "shared ABF, walker %d dies at its replica call %d of the round of step %d: a surviving walker "
+                          "did not return from the step (%s)" % (c["victim"], c["die_after"], T, str(e)[:160]), {"kind": "death", "case": c})
+            continue
+        if any(d is None for (_, d) in after.values()):
+            run.violation("death:no-state", "a surviving walker printed no state after the interrupted round", {"kind": "death", "case": c})
+            continue
+        oc = "".join("C" if (w in after and after[w][1]["last_step"] == T) else "A" for w in range(n))
+        run.dist("death:outcome=%s" % ("all-aborted" if "C" not in oc else "all-survivors-committed" if all(oc[w] == "C" for w in after) else "mixed"))
+        # oracle on the implementation alone (1): what a survivor sampled itself is what its grids give back
+        bad = None
+        for w, (stl, d) in sorted(after.items()):
+            cnt = [0] * nb
+            sm = [0.0] * nb
+            for t in range(1, T + 1):
+                b_, f_ = c["steps"][t][w]
+                cnt[b_] += 1
+                sm[b_] += -f_
+            own_c = [o + (g - l) for o, g, l in zip(d["ocnt"], d["cnt"], d["lcnt"])]
+            own_s = [o + (g - l) for o, g, l in zip(d["osum"], d["sum"], d["lsum"])]
+            if own_c != cnt or any(not close(a, b, True) for a, b in zip(own_s, sm)):
+                bad = (w, own_c, cnt, own_s, sm)
+                break
+        if bad:
+            run.violation("death:own-data-corrupted", "shared ABF, %d walkers, walker %d dies at its replica call %d of the round of step %d: walker %d's own "
+                          "samples (local + global - snapshot) read %s, it sampled %s (outcomes %s)" % (n, c["victim"], c["die_after"], T, bad[0], bad[1], bad[2], oc),
+                          {"kind": "death", "case": c, "walker": bad[0]})
+            continue
+        # (2) nobody can have completed the round unless replica 0 did (or died trying to tell the others)
+        if 0 in after and oc[0] == "A" and "C" in oc:
+            run.violation("death:round-completed-without-replica-0", "outcomes %s: a walker completed a round that replica 0 gave up" % oc, {"kind": "death", "case": c})
+            continue
+        # tie: the model's exchange_partial with the outcomes the walkers report
+        tokens = []
+        for t in range(T):
+            if t > 0 and t % F == 0:
+                tokens += ["a,%d" % w for w in range(n)] + ["x,%d" % t]
+            if t >= 1:
+                tokens += ["s,%d,%d,%s" % (w, c["steps"][t][w][0], V.hexf(c["steps"][t][w][1])) for w in range(n)]
+        tokens.append("p,%d,%s" % (T, oc))
+        tokens += ["s,%d,%d,%s" % (w, c["steps"][T][w][0], V.hexf(c["steps"][T][w][1])) for w in sorted(after)]
+        tokens += ["q,%d" % w for w in sorted(after)]
+        rc, mout, err = V.run_lines(model, ["ABF 0 %d %d 1 %d %s" % (n, nb, F, " ".join(tokens))], timeout=60)
+        if rc != 0 or len(mout) != 1:
+            raise V.InfraError("C14 model driver failed: rc=%s %s" % (rc, err[-500:]))
+        mres = parse_model_abf(mout[0])
+        for m, w in zip(mres, sorted(after)):
+            d = dict(after[w][1])
+            if "cnt" not in m:
+                run.mismatch("death", {"case": c, "walker": w}, d, m)
+                break
+            k_ = same_abf(d, m, True)
+            if k_ is not None:
+                run.mismatch("death", {"case": c, "walker": w, "field": k_, "outcomes": oc}, {x: d[x] for x in ("cnt", "sum", "lcnt", "lsum", "ocnt", "osum", "last_step")}, m)
+                break
+
+
+def gen_odeath(r, cid, big=False):
+    n = r.choice([2, 3, 3, 4])
+    pace = r.choice([1, 2, 3])
+    T = pace * r.randint(1, 2)
+    variant = r.choice(["plain", "plain", "nlist", "adaptive"])
+    steps = [[V.dyadic(r, -2, 2, bits=4) for _ in range(n)] for _ in range(T + 1)]
+    return {"kind": "odeath", "id": cid, "n": n, "pace": pace, "variant": variant, "T": T, "victim": r.randrange(n),
+            "die_after": r.randrange(14), "steps": steps}
+
+
+def check_odeath(run, exe, model, cases, scratch):
+    keys = ("sumw", "sumw2", "neff", "rct", "zed", "kdenorm", "counter")
+    for c in cases:
+        n, T = c["n"], c["T"]
+        run.dist("opes-death:n=%d" % n)
+        run.count(json.dumps([c["steps"], c["pace"], c["victim"], c["die_after"], c["variant"]]), True)
+        try:
+            before, after = run_twice(scen.run_odeath, exe, c, scratch, timeout=15.0)
+        except W.WalkerTimeout as e:
+            run.violation("opes-death:survivor-hangs-or-dies", "OPES, walker %d dies at its replica call %d of the round of step %d: a surviving walker did "
+                          "not return from the step (%s)" % (c["victim"], c["die_after"], T, str(e)[:160]), {"kind": "odeath", "case": c})
+            continue
+        if any(d is None for d in before) or any(d is None for (_, d) in after.values()):
+            run.violation("opes-death:no-state", "a walker printed no OPES state around the interrupted round", {"kind": "odeath", "case": c})
+            continue
+        for w, (stl, d) in sorted(after.items()):
+            b = before[w]
+            same = d["kernels"] == b["kernels"] and all(d.get(k_) == b.get(k_) for k_ in keys)
+            full = c["variant"] == "plain" and len(d["kernels"]) == len(b["kernels"]) + n and d["counter"] == b["counter"] + n
+            moved = len(d["kernels"]) > len(b["kernels"]) and d["counter"] == b["counter"] + n      # (compression may merge kernels)
+            run.dist("opes-death:%s" % ("aborted" if same else "completed" if (full or moved) else "half"))
+            if not (same or full or moved):
+                run.violation("opes-death:half-completed-round", "OPES, %d walkers (%s), walker %d dies at its replica call %d of the round of step %d: walker %d "
+                              "is neither as before the step nor after a complete round: kernels %d -> %d, counter %s -> %s, sum of weights %s -> %s"
+                              % (n, c["variant"], c["victim"], c["die_after"], T, w, len(b["kernels"]), len(d["kernels"]), b["counter"], d["counter"],
+                                 b["sumw"], d["sumw"]), {"kind": "odeath", "case": c, "walker": w})
+                break
 
 
 # ==========================================================================================
@@ -1418,6 +1676,8 @@ def run_cases(run, exe, model, cases, scratch):
     check_view(run, exe, model, [c for c in cases if c["kind"] == "view"], scratch)
     check_czar(run, exe, model, [c for c in cases if c["kind"] == "czar"], scratch)
     check_opes(run, exe, model, [c for c in cases if c["kind"] == "opes"], scratch)
+    check_death(run, exe, model, [c for c in cases if c["kind"] == "death"], scratch)
+    check_odeath(run, exe, model, [c for c in cases if c["kind"] == "odeath"], scratch)
 
 
 def check(run):
@@ -1436,6 +1696,8 @@ def check(run):
         check_rewrite_order(run, exe, scratch)
         check_different_grids(run, exe, scratch)
         check_rejected_configs(run, exe, scratch)
+        check_input_prefix(run, exe, scratch)
+        check_two_biases(run, exe, scratch)
         run_cases(run, exe, model, load_corpus(), scratch)
         na, nm, nv, nr = (60, 45, 30, 12) if quick else (1500, 1200, 800, 300)
         big = not quick      # more than four walkers: thorough tier only
@@ -1445,6 +1707,8 @@ def check(run):
         cases += [gen_view(r, "x%d" % i, robust=True) for i in range(nr)]
         cases += [gen_czar(r, "z%d" % i, big) for i in range(8 if quick else 150)]
         cases += [gen_opes(r, "o%d" % i, big) for i in range(8 if quick else 150)]
+        cases += [gen_death(r, "d%d" % i, big) for i in range(6 if quick else 120)]
+        cases += [gen_odeath(r, "e%d" % i, big) for i in range(5 if quick else 100)]
         run_cases(run, exe, model, cases, scratch)
     finally:
         leftover = V.sh(["pgrep", "-f", exe])[1].split()
